@@ -1,6 +1,6 @@
 /* C12: one inductive step of the insertable sorted set from ANY state satisfying the representation invariant
-   (keys strictly ascending, _sz <= _rsz, _arr a new[]-allocated buffer of exactly _rsz elements, or null when the
-   allocation is still deferred and the set is empty):  insert(k) / find variants / clear() behave as on a sorted set of
+   (keys strictly ascending, _sz <= _rsz, _arr a heap array whose _rsz-th element is the last one of its allocation, or null
+   when the allocation is still deferred and the set is empty):  insert(k) / find variants / clear() behave as on a sorted set of
    unique keys, keep the invariant, stay inside their allocations, and insert's iterator points at the inserted element.
    SET 0: generic presorted_set<unsigned short, Elem, ElemLess>      SET 1: the FieldTrait specialisation (Presence), no hash array
    OP 0 insert   1 lookups   2 clear   3 insert(range of 2)
@@ -39,7 +39,8 @@ uint8_t *x__Znam(uint64_t n)
   last_new = p; last_new_bytes = n; n_new++;
   return p;
 }
-void x__ZdaPv(uint8_t *p) { n_del++; free(p); }
+static ELT *big, *buf0;      /* the pre-state array is the tail of one heap object of NS elements: it ends where the object ends */
+void x__ZdaPv(uint8_t *p) { n_del++; if (p != 0 && p == (uint8_t*)buf0) free(big); else free(p); }
 static SETT the_set;
 uint16_t cx_k[NS], cx_key, cx_key2; uint64_t cx_sz, cx_rsz, cx_reserve; int32_t cx_null, cx_op, cx_set;
 int main(void)
@@ -51,7 +52,7 @@ int main(void)
 #endif
   VF_ASSUME(!isnull || sz == 0);
   ELT *buf = 0;
-  if (!isnull) { for (uint64_t c = 0; c <= NS; c++) if (rsz == c) buf = malloc(c * sizeof(ELT)); VF_ASSUME(buf != 0); }
+  if (!isnull) { big = malloc(NS * sizeof(ELT)); VF_ASSUME(big != 0); buf = big + (NS - rsz); buf0 = buf; }
   uint16_t k[NS], pay[NS];
   for (int i = 0; i < NS; i++) { k[i] = nondet_u16(); pay[i] = nondet_u16(); cx_k[i] = k[i]; if (i > 0 && (uint64_t)i < sz) VF_ASSUME(k[i - 1] < k[i]); }
   for (int i = 0; i < NS; i++) if ((uint64_t)i < sz) { KEY(buf[i]) = k[i]; PAY(buf[i]) = pay[i]; }
